@@ -88,7 +88,7 @@ var plans = map[string]*Plan{
 	},
 	"C13": {
 		Level:     "exploration",
-		Scenarios: []ScenPlan{{"lbacct", 30000, 600000}},
+		Scenarios: []ScenPlan{{"lbacct", 30000, 600000}, {"sysfault", 8000, 150000}},
 		QuickWallS: 120, ThoroughWallS: 1500,
 		Rule:        "Scenario lbacct: every request class (ok, 4xx, 5xx, unreachable, aborted mid-body, client gone, rate-limited, breaker-rejected, no healthy backend, held) sequentially and with 2-8 (thorough 2-64) concurrent clients; conservation equations against the harness' own tallies at every quiescent point.",
 		Real:        microReal, Stub: microStub, Assumptions: commonAssumptions,
@@ -141,5 +141,13 @@ var plans = map[string]*Plan{
 		Rule:        "Scenario sysxfer: real http.Server + handler chain + balancer + ReverseProxy + http.Transport over simnet; 1-3 raw clients, 1-4 scripted backends (optional base paths), 3-10 exchanges per run with drawn methods, escaped paths, multi-valued / odd-cased headers, bodies 0-200KB in Content-Length or chunked framing split into writes, every status class incl. 103/204/304/3xx/4xx/5xx, streamed responses (chunked / SSE with 2-5s pauses); the seed picks the interleaving of deliveries, fragment sizes and small delays. Differential oracle: what each end sent vs what the other end received; flushed bytes must arrive before the backend's next write (fake-clock timestamps).",
 		Real:        sysReal, Stub: sysStub, Assumptions: commonAssumptions,
 		ExpectProbes: []string{"stream-gap-checked"},
+	},
+	"C03": {
+		Level:     "exploration",
+		Scenarios: []ScenPlan{{"sysfault", 16000, 300000}},
+		QuickWallS: 150, ThoroughWallS: 1700,
+		Rule:        "Scenario sysfault: the real stack over simnet with swarm configuration (every strategy; breaker, limiter, passive/active checks, plugins each on or off; read/write/backend_dial/backend_read timeouts 1-10s) and a drawn fault sequence of length 2-6 (thorough 2-12) over {refuse, dial black-hole, hang-headers, reset-after-headers, short-body, garbage, 5xx, slow-body, stall-after-headers, client-abort-upload, client-abort-download}, sequential and overlapping (1-3 clients); oracle: no panic, every request ends within read+write+backend_dial+backend_read+1s, after faults stop a recovery request is served normally.",
+		Real:        sysReal, Stub: sysStub, Assumptions: commonAssumptions,
+		ExpectProbes: []string{"recovered", "clean-exchange-ok"},
 	},
 }
